@@ -41,6 +41,7 @@ fn main() {
         "C05" => sweep_cmd(Prop::C05, &["nest", "nestlook", "core", "capback", "onechar"]),
         "C09" => sweep_cmd(Prop::C09, &["core", "capback", "look", "utf8", "lit", "onechar"]),
         "C13" => sweep_cmd(Prop::C13, &["core", "look", "nest", "icase", "lit", "onechar", "mods", "utf8"]),
+        "C10" => simple_cmd("C10", mc::c10::c10),
         "C16" => simple_cmd("C16", mc::apichecks::c16),
         "C17" => simple_cmd("C17", mc::apichecks::c17),
         "C18" => simple_cmd("C18", mc::apichecks::c18),
